@@ -9,6 +9,8 @@ symbolic address `a<i>`; `dead` is an address nobody listens on):
   view <i> <id> <status> <addr> <ep>=<n> ...  node i's cluster.State.AddNode(row about <id>)        -> ok
   vstat <i> <id> <status> | vep <i> <id> <ep> <n> | vrm <i> <id> <ep> | vdel <i> <id>
                                               UpdateRemoteStatus / UpdateRemoteEndpoint / RemoveRemoteEndpoint / RemoveNode -> ok <0|1>
+  lep <i> <ep> | rmlep <i> <ep>               node i's cluster.State.AddLocalEndpoint / RemoveLocalEndpoint called directly
+                                              (the local row no longer matches the registry)          -> ok
   resync                                      every node: RemoveConn all upstreams, AddConn them again in
                                               registration order (resets the round-robin cursors)  -> ok
   req <i> <http|tcp> <host> <x-piko-endpoint|~> <x-piko-forward|~> <connraw,..|-> <conn,..|-> <pathEp|-> <split|!> <ip>
@@ -145,6 +147,14 @@ def step (s : St) : List String → St × String
   | ["vdel", i, id] =>
     match i.toNat? with
     | some i => withView s i fun c => c.removeNode (hx id)
+    | none => (s, "bad-op")
+  | ["lep", i, e] =>
+    match i.toNat? with
+    | some i => withNode s i fun m => ({ m with cluster := m.cluster.addLocalEndpoint (hx e) }, "ok")
+    | none => (s, "bad-op")
+  | ["rmlep", i, e] =>
+    match i.toNat? with
+    | some i => withNode s i fun m => ({ m with cluster := (m.cluster.removeLocalEndpoint (hx e)).1 }, "ok")
     | none => (s, "bad-op")
   | ["resync"] => (resync s, "ok")
   | ["req", i, kind, host, eph, fwd, _connraw, conn, pathEp, split, ip] =>
